@@ -123,7 +123,7 @@ Proof.
 Qed.
 
 Lemma lbl_enc : forall nxti n ch, ln_legal nxti n ch = true ->
-  xls_lbl (lbl_body n ch) = Ok (fst n, (Some (xref_ixti (snd n)), xref_text (snd n))).
+  xls_lbl (lbl_body n ch) = Ok (fst n, (Some (xref_ixti (snd n)), xref_text (snd n)), xref_rgce (snd n)).
 Proof.
   intros nxti n ch H. unfold ln_legal in H.
   apply andb_true_iff in H. destruct H as [H Hitab].
@@ -162,7 +162,7 @@ Proof.
        replace (14 + len S1 + len rgce - len rgce) with (len (lbl_head n ch ++ S1))
          by (rewrite len_app, HH; lia).
        rewrite drop_len_app. reflexivity. }
-  unfold rgce. rewrite (defined_name_enc (snd n) Hx). cbn [obind].
+  cbv zeta. unfold rgce. rewrite (defined_name_enc (snd n) Hx). cbn [obind].
   unfold us, units_of. rewrite (biff_decode_encode _ Hsc). reflexivity.
 Qed.
 
@@ -282,8 +282,8 @@ Proof.
   apply nc_frame; [discriminate|apply (len_lbl_body nxti); exact H1].
 Qed.
 
-Definition lbl_entry (n : str * xref) : str * (option N * str) :=
-  (fst n, (Some (xref_ixti (snd n)), xref_text (snd n))).
+Definition lbl_entry (n : str * xref) : str * (option N * str) * bytes :=
+  (fst n, (Some (xref_ixti (snd n)), xref_text (snd n)), xref_rgce (snd n)).
 
 Lemma globals_lbls : forall nxti names chs rest st,
   forallb2 (ln_legal nxti) names chs = true -> nc rest ->
@@ -347,14 +347,91 @@ Proof.
 Qed.
 
 (* ------------------------------------------------------------------------------------- *)
+(** * the name's formula through the cell-formula decoder (Ptg) *)
+
+Lemma nthN_ptg : forall (A : Type) (l : list A) i, Ptg.nthN l i = nthN l i.
+Proof.
+  induction l as [|x l IH]; intros i; cbn [Ptg.nthN nthN]; [reflexivity|].
+  destruct (i =? 0); [reflexivity|apply IH].
+Qed.
+
+Lemma le16_le2 : forall u, u < 65536 -> le16 u = Ptg.le 2 u.
+Proof.
+  intros u H. unfold le16. cbn [Ptg.le]. assert (E : (u / 256) mod 256 = u / 256) by (apply N.mod_small; lia).
+  rewrite E. reflexivity.
+Qed.
+
+Lemma sheet_env : forall st i, Ptg.spec_sheet_xls (xls_formula_env st) i = xls_sheet_of st i.
+Proof.
+  intros st i. unfold Ptg.spec_sheet_xls, xls_sheet_of, xls_formula_env. cbn [Ptg.xe_xtis Ptg.xe_sheets].
+  rewrite nthN_ptg. destruct (nthN (xg_xtis st) i) as [[[a b] c]|]; [|reflexivity].
+  destruct (b <? 32768); [|reflexivity]. rewrite nthN_ptg, nthN_map.
+  destruct (nthN (xg_sheets st) b); reflexivity.
+Qed.
+
+Lemma u16_le16 : forall i, i mod 256 + 256 * (i / 256) = i.
+Proof. intros i. pose proof (N.div_mod' i 256). lia. Qed.
+
+Lemma xref_formula : forall show_f64 env x, xref_ok x = true -> xref_ixti x < 65536 ->
+  Ptg.xls_parse_formula show_f64 env (le16 (len (xref_rgce x)) ++ xref_rgce x)
+  = Ok (Ptg.spec_sheet_xls env (xref_ixti x) ++ [BANG] ++ xref_text x).
+Proof.
+  intros show_f64 env x Hok Hi. destruct x as [k i a|k i a b|k i|k i]; cbn [xref_ixti xref_ok xref_text] in *.
+  - (* one 3-D cell *)
+    destruct (Ptg_proofs.wf_cref_bounds 65536 a Hok) as (Hr & Hc & Hf).
+    assert (Hwf : Ptg.wf_xls env (Ptg.ERef3d k i a) = true).
+    { unfold Ptg.wf_xls. cbn [Ptg.wf]. apply N.ltb_lt in Hi. rewrite Hi. exact Hok. }
+    pose proof (@Ptg_proofs.rpn_correct_xls show_f64 env (Ptg.ERef3d k i a) Hwf) as R.
+    unfold Ptg.encode_xls, Ptg.frame_xls in R. cbn [Ptg.encode app length] in R.
+    cbn [xref_rgce]. change (len _) with 7. rewrite !le16_le2 by (assumption || lia).
+    rewrite !app_length, !Ptg_proofs.le_length in R. cbn [length Nat.add N.of_nat Pos.of_succ_nat Pos.succ] in R.
+    cbn [app] in *. rewrite R by lia. reflexivity.
+  - (* one 3-D area *)
+    apply andb_true_iff in Hok. destruct Hok as [Ha Hb].
+    destruct (Ptg_proofs.wf_cref_bounds 65536 a Ha) as (Hr & Hc & Hf).
+    destruct (Ptg_proofs.wf_cref_bounds 65536 b Hb) as (Hr' & Hc' & Hf').
+    assert (Hwf : Ptg.wf_xls env (Ptg.EArea3d k i a b) = true).
+    { unfold Ptg.wf_xls. cbn [Ptg.wf]. apply N.ltb_lt in Hi. rewrite Hi.
+      change (Ptg.wf_cref 65536 a) with (cref_ok a). change (Ptg.wf_cref 65536 b) with (cref_ok b).
+      rewrite Ha, Hb. reflexivity. }
+    pose proof (@Ptg_proofs.rpn_correct_xls show_f64 env (Ptg.EArea3d k i a b) Hwf) as R.
+    unfold Ptg.encode_xls, Ptg.frame_xls in R. cbn [Ptg.encode app length] in R.
+    cbn [xref_rgce]. change (len _) with 11. rewrite !le16_le2 by (assumption || lia).
+    rewrite !app_length, !Ptg_proofs.le_length in R. cbn [length Nat.add N.of_nat Pos.of_succ_nat Pos.succ] in R.
+    cbn [app] in *. rewrite R by lia. reflexivity.
+  - (* PtgRefErr3d *)
+    destruct k; cbn [xref_rgce Ptg.cls_ptg app]; change (len _) with 7; unfold le16;
+      change (7 mod 256) with 7; change (7 / 256) with 0;
+      unfold Ptg.xls_parse_formula; cbn [length Nat.ltb Nat.leb app Ptg.u16_at skipn obind Ptg.drop];
+      change (7 + 256 * 0) with 7; change (N.to_nat 7) with 7%nat;
+      cbn [length Nat.ltb Nat.leb Ptg.take obind Ptg.xls_run Ptg.xls_expected Ptg.xls_step Ptg.u16_at skipn Ptg.drop fst snd];
+      rewrite u16_le16; reflexivity.
+  - (* PtgAreaErr3d *)
+    destruct k; cbn [xref_rgce Ptg.cls_ptg app]; change (len _) with 11; unfold le16;
+      change (11 mod 256) with 11; change (11 / 256) with 0;
+      unfold Ptg.xls_parse_formula; cbn [length Nat.ltb Nat.leb app Ptg.u16_at skipn obind Ptg.drop];
+      change (11 + 256 * 0) with 11; change (N.to_nat 11) with 11%nat;
+      cbn [length Nat.ltb Nat.leb Ptg.take obind Ptg.xls_run Ptg.xls_expected Ptg.xls_step Ptg.u16_at skipn Ptg.drop fst snd];
+      rewrite u16_le16; reflexivity.
+Qed.
+
+Lemma map_o_map_ok : forall (A B C : Type) (f : B -> outcome C) (g : A -> B) (h : A -> C) l,
+  (forall x, In x l -> f (g x) = Ok (h x)) -> map_o f (map g l) = Ok (map h l).
+Proof.
+  intros A B C f g h. induction l as [|x l IH]; intros H; [reflexivity|].
+  cbn [map map_o]. rewrite (H x (or_introl eq_refl)). cbn [obind].
+  rewrite IH by (intros y Hy; apply H; right; exact Hy). reflexivity.
+Qed.
+
+(* ------------------------------------------------------------------------------------- *)
 (** * the whole xls report *)
 
-Theorem xls_parse_encode : forall c wb,
+Theorem xls_parse_encode : forall show_f64 c wb,
   xls_legal c wb = true ->
-  xls_parse_workbook (xls_stream c wb) =
+  xls_parse_workbook show_f64 (xls_stream c wb) =
   Ok (mkParsed (wb_sheets wb) [] (spec_names_xls c wb) (wb_1904 wb)).
 Proof.
-  intros c wb Hl. unfold xls_legal in Hl.
+  intros show_f64 c wb Hl. unfold xls_legal in Hl.
   apply andb_true_iff in Hl. destruct Hl as [Hl Hpos].
   apply andb_true_iff in Hl. destruct Hl as [Hl Htail].
   apply andb_true_iff in Hl. destruct Hl as [Hl Hnx].
@@ -465,42 +542,51 @@ Proof.
     rewrite (globals_junk (lc_junk3 c) _ _ J3 N4).
     rewrite (records_plain 10 [] (lc_tail c) len_nil_ok Nt).
     reflexivity. }
-  rewrite Hg. cbn [obind xg_sheets xg_names xg_xtis xg_1904].
+  rewrite Hg. cbn [obind].
+  set (st := mkXlsState shs (map lbl_entry (wb_names wb)) (lc_xtis c) (wb_1904 wb)).
+  assert (Hxl : len shs = len (wb_sheets wb)).
+  { unfold shs. rewrite len_map. unfold len.
+    rewrite combine_length, (forallb2_length _ _ _ _ _ Hsheets), Nat.min_id. reflexivity. }
+  assert (Hres : xls_resolve show_f64 st = Ok (spec_names_xls c wb)).
+  { unfold xls_resolve, spec_names_xls. unfold st at 2. cbn [xg_names].
+    apply map_o_map_ok. intros n Hin.
+    assert (Hn : xref_ok (snd n) = true /\ xref_ixti (snd n) < len (lc_xtis c)).
+    { clear - Hnames Hin. revert Hnames Hin. generalize (lc_names c).
+      induction (wb_names wb) as [|m l IH]; intros [|ch chs] H Hin; cbn in H; try discriminate;
+        [destruct Hin|].
+      apply andb_true_iff in H. destruct H as [H1 H2]. destruct Hin as [->|Hin].
+      - unfold ln_legal in H1. repeat (apply andb_true_iff in H1; destruct H1 as [H1 ?]).
+        split; [assumption|lia].
+      - eapply IH; eassumption. }
+    destruct Hn as [Hok Hix]. apply N.ltb_lt in Hnx.
+    unfold xls_resolve_one, lbl_entry. cbn [fst snd].
+    rewrite (xref_formula show_f64 (xls_formula_env st) (snd n) Hok) by lia.
+    rewrite sheet_env.
+    change (xls_sheet_of st (xref_ixti (snd n)))
+      with (xls_sheet_of (mkXlsState shs [] (lc_xtis c) false) (xref_ixti (snd n))).
+    rewrite sheet_of_spec, Hshs; [reflexivity| |exact Hix].
+    rewrite Hxl. exact Hxt. }
+  rewrite Hres. cbn [obind xg_sheets xg_1904 st].
   assert (Hex : existsb (fun pm : N * meta => len (xls_stream c wb) <? fst pm) shs = false).
   { apply not_true_is_false. intros He. apply existsb_exists in He.
     destruct He as [pm [Hin Hlt]]. apply in_map_iff in Hin. destruct Hin as [[s0 ch0] [<- Hin]].
     apply in_combine_r in Hin. cbn [fst snd] in *. rewrite forallb_forall in Hpos.
     specialize (Hpos _ Hin). cbn [fst] in Hlt. lia. }
-  rewrite Hex. rewrite Hshs. f_equal. f_equal.
-  unfold xls_resolve, spec_names_xls. cbn [xg_names]. rewrite map_map.
-  apply map_ext_in. intros n Hin. unfold lbl_entry. cbn [fst snd].
-  assert (Hix : xref_ixti (snd n) < len (lc_xtis c)).
-  { clear - Hnames Hin. revert Hnames Hin. generalize (lc_names c).
-    induction (wb_names wb) as [|m l IH]; intros [|ch chs] H Hin; cbn in H; try discriminate;
-      [destruct Hin|].
-    apply andb_true_iff in H. destruct H as [H1 H2]. destruct Hin as [->|Hin].
-    - unfold ln_legal in H1. repeat (apply andb_true_iff in H1; destruct H1 as [H1 ?]). lia.
-    - eapply IH; eassumption. }
-  match goal with |- context [xls_sheet_of ?st ?i] =>
-    change (xls_sheet_of st i) with (xls_sheet_of (mkXlsState shs [] (lc_xtis c) false) i) end.
-  rewrite sheet_of_spec, Hshs; [reflexivity| |exact Hix].
-  unfold shs. rewrite len_map.
-  replace (len (combine (wb_sheets wb) (lc_sheets c))) with (len (wb_sheets wb)); [exact Hxt|].
-  unfold len. rewrite combine_length, (forallb2_length _ _ _ _ _ Hsheets), Nat.min_id. reflexivity.
+  rewrite Hex, Hshs. reflexivity.
 Qed.
 
-Theorem sheets_in_order_xls : forall c wb, xls_legal c wb = true ->
-  exists p, xls_parse_workbook (xls_stream c wb) = Ok p /\ p_sheets p = wb_sheets wb.
-Proof. intros c wb Hl. eexists. split; [apply xls_parse_encode; exact Hl|reflexivity]. Qed.
+Theorem sheets_in_order_xls : forall show_f64 c wb, xls_legal c wb = true ->
+  exists p, xls_parse_workbook show_f64 (xls_stream c wb) = Ok p /\ p_sheets p = wb_sheets wb.
+Proof. intros show_f64 c wb Hl. eexists. split; [apply xls_parse_encode; exact Hl|reflexivity]. Qed.
 
-Theorem defined_names_in_order_xls : forall c wb, xls_legal c wb = true ->
-  exists p, xls_parse_workbook (xls_stream c wb) = Ok p /\ p_names p = spec_names_xls c wb.
-Proof. intros c wb Hl. eexists. split; [apply xls_parse_encode; exact Hl|reflexivity]. Qed.
+Theorem defined_names_in_order_xls : forall show_f64 c wb, xls_legal c wb = true ->
+  exists p, xls_parse_workbook show_f64 (xls_stream c wb) = Ok p /\ p_names p = spec_names_xls c wb.
+Proof. intros show_f64 c wb Hl. eexists. split; [apply xls_parse_encode; exact Hl|reflexivity]. Qed.
 
 (* the date flag, composed with C10's plumbing theorems (NUMBER / RK / MULRK cells and FORMULA
    cells with a cached number) *)
-Theorem date_flag_reaches_cells_xls : forall c wb, xls_legal c wb = true ->
-  exists p, xls_parse_workbook (xls_stream c wb) = Ok p /\
+Theorem date_flag_reaches_cells_xls : forall show_f64 c wb, xls_legal c wb = true ->
+  exists p, xls_parse_workbook show_f64 (xls_stream c wb) = Ok p /\
     (forall t ixfe v fmt,
        NumFmt_proofs.ids_below 65536 t -> NumFmt_proofs.xfs_present t ->
        nth_error (NumFmt.xfs t) (N.to_nat ixfe) = Some fmt ->
@@ -514,7 +600,7 @@ Theorem date_flag_reaches_cells_xls : forall c wb, xls_legal c wb = true ->
     (forall formats cells b dur g,
        In (NumFmt.DDateTime b dur g) (xls_sheet_values p formats cells) -> g = wb_1904 wb).
 Proof.
-  intros c wb Hl. eexists. split; [apply xls_parse_encode; exact Hl|]. repeat split.
+  intros show_f64 c wb Hl. eexists. split; [apply xls_parse_encode; exact Hl|]. repeat split.
   - intros t ixfe v fmt H1 H2 H3. cbn [p_1904]. apply NumFmt_proofs.date_iff_style_xls; assumption.
   - intros t ixfe bits fmt H1 H2 H3. cbn [p_1904].
     apply NumFmt_proofs.date_iff_style_xls_formula; assumption.
